@@ -166,6 +166,23 @@ CLAIMED.update(
     }
 )
 
+CLAIMED.update(
+    {
+        "C22": (
+            "GUARD-DOM of every removal by all(map(isclose, A, B)) with provenance of A (fixed before the loops, from the original) and B (from a clone after the same removal), protected-variable skip as a dominating guard, sticky-flag rule on fixed-point loops, in-place-change -> invalidate must-pass, who-may-add, snapshot/restore dominance in _minimize",
+            "Decides that no coverage-based minimiser can apply a removal whose effect it did not measure: every removal on the original (statement-level in Forward/Backward/Combined, "
+            "test-level in the suite visitor) is dominated by the true edge of all(map(isclose, reference, candidate)), the reference computed once before the loops from the unmodified "
+            "object and the candidate from a clone that underwent the same removal at the same index in the same iteration; statement-level removers skip variables in "
+            "get_assertion_protected_variables of the same test case, whose backward closure is a genuine fixed point (flag only raised inside a scan); a test case changed in place while "
+            "its chromosome stays alive is followed by invalidation before the next coverage computation; no visitor adds or replaces statements; _minimize snapshots before and restores "
+            "(and marks changed) when _check_coverage = all(map(isclose, ...)) is false. Whole-test removal by the SUITE strategy is outside the protected-variable rule (it deletes a test "
+            "together with its assertions by design). Equality of coverage values after minimisation is not decided.",
+            "Trusts the CFG builder; clone-derived names are tracked by a flow-insensitive closure over assignments.",
+            "DESIGN.md §3 C22",
+        ),
+    }
+)
+
 NOT_APPLICABLE: dict[str, str] = {
     "C06": "Correctness of the post-dominator/CDG construction on every code object is functional correctness of a graph "
     "algorithm; no shape of the code implies it and no sound static argument in reach bounds 'all code objects'.",
